@@ -34,11 +34,11 @@ RULE = ("structure library of vlib/symlib.py (23 structures in the families cubi
 ASSUMPTIONS = ["precondition 'genuinely symmetric' is decided by the harness (E, Berry curvature, spin covariant under every "
                "group element at one generic k, tolerances of C20); start centres are displaced per site or not at all, "
                "because per-orbital displacements are not symmetrised correctly (finding of C20)",
-               "tolerance 1e-7 * Y + max(1e-10, 1e-14/gap^4) natural units for integrated results (Y = sum_K w_K max|result_K|; "
+               "tolerance 1e-7 * Y + max(1e-10, 1e-14 (L/gap)^4) natural units for integrated results (Y = sum_K w_K max|result_K|; "
                "natural unit = 1 for static calculators with use_factor=False, |constant_factor| for dynamic ones); "
-               "1e-9 (1+|E|) for tabulated energies, 1e-7 * scale + max(1e-9, 1e-14/gap^p) for other tabulated values with "
+               "1e-9 (1+|E|) for tabulated energies, 1e-7 * scale + max(1e-9, 1e-14 (L/gap)^p) for other tabulated values with "
                "p = 2 (3, 4 for first, second k-derivatives): rounding noise of quantities that vanish by symmetry is "
-               "~1e-16/gap^p; gap = smallest gap above the degeneracy threshold on the grid; cases with gap < 2e-3 are "
+               "~1e-16 (L/gap)^p, L = longest lattice vector (>= 1); gap = smallest gap above the degeneracy threshold on the grid; cases with gap < 2e-3 are "
                "labelled near-degenerate and not counted as non-trivial",
                "a mismatch is inconclusive when a tie witness exists: a gap within [0.5e-4, 2e-4] (degeneracy threshold 1e-4) or "
                "a band energy within 1e-9 of a node of the (extended) Fermi grid",
@@ -55,6 +55,7 @@ BASE_KEYS = ["Ham", "AA", "BB", "CC", "FF"]
 SPIN_KEYS = ["SS", "SA", "SHA", "SH", "SR", "SHR"]
 EQUAL_AXES = {"sc": [(0, 1), (1, 2)], "fcc": [(0, 1), (1, 2)], "bcc": [(0, 1), (1, 2)], "rhombohedral": [(0, 1), (1, 2)],
               "tetragonal": [(0, 1)], "hexagonal": [(0, 1)], "hexagonal60": [(0, 1)]}
+CALIB = None   # set to a list by calibration scripts: (name, error in natural units, scale, min gap, longest lattice vector)
 CORE = {"static": ["static.AHC", "static.BerryDipole_FermiSea", "static.Ohmic_FermiSea"], "dynamic": [],
         "tab": ["tab.BerryCurvature", "tab.DerBerryCurvature"]}
 _small = st.tuples(st.integers(-1, 1), st.integers(-1, 1), st.integers(-1, 1)).filter(lambda r: any(r))
@@ -227,9 +228,12 @@ def check(case):
     gmin = float(big.min()) if big.size else np.inf
     near_degenerate = gmin < 2e-3
 
+    Lmax = float(np.max(np.linalg.norm(np.array(system.real_lattice), axis=1)))
+
     def noise(power):
-        """rounding noise of a quantity that contains 1/gap^power: ~1e-16/gap^power; two orders of margin"""
-        return 1e-14 / min(1.0, gmin) ** power
+        """rounding noise of a quantity that contains (velocity/gap)^power ~ (L/gap)^power (L = longest lattice vector,
+        hoppings are O(1)): ~1e-16 (L/gap)^power; two orders of margin"""
+        return 1e-14 * (max(1.0, Lmax) / min(1.0, gmin)) ** power
     found, labels = [], []
     nonzero = 0
 
@@ -249,6 +253,8 @@ def check(case):
             continue
         Y = yard.get(name, 0.0)
         err = float(np.max(np.abs(a - b))) if a.size else 0.0
+        if CALIB is not None:
+            CALIB.append((name, err / (1.0 if kind == "static" else abs(complex(getattr(calcs_irr[name], "constant_factor", 1.0)))), Y, gmin, Lmax))
         # absolute floor in natural units (static: use_factor=False; dynamic: multiples of the calculator's constant factor)
         unit = 1.0 if kind == "static" else abs(complex(getattr(calcs_irr[name], "constant_factor", 1.0)))
         tol = 1e-7 * Y + unit * max(1e-10, noise(4))
@@ -285,6 +291,8 @@ def check(case):
             tol = 1e-9 * (1 + sc) if q == "Energy" else 1e-7 * sc + max(1e-9, noise(4 if "Der2" in q else 3 if "Der" in q else 2))
             err = float(np.max(np.abs(a - b))) if a.size else 0.0
             nm = q if q.startswith("tab.") else f"tab.{q}"
+            if CALIB is not None:
+                CALIB.append((nm, err, sc, gmin, Lmax))
             if not np.all(np.isfinite(a)) or err > tol:
                 ik = int(np.unravel_index(np.argmax(np.abs(a - b)), a.shape)[0])
                 found.append((f"tabulated:{nm}",
